@@ -250,10 +250,13 @@ def norm_for_elem(node):
 ELEM_SOURCES = {}     # (name, adaptors) of an elem pseudo-leaf -> the chain it stands for (rules that need the collection's own definition look it up here)
 
 
-def elem_of_chain(ch):
-    """element node of a chain; if the chain maps through enumerate/zip etc. the adaptors are recorded"""
+def elem_of_chain(ch, owner=None):
+    """element node of a chain; if the chain maps through enumerate/zip etc. the adaptors are recorded.  The chain itself is remembered under the
+    element's (abbreviated) name, per owning function when the caller says which one it is (names such as `Range{..}` repeat across functions)"""
     e = ("elem", ch.source_name() or origin_desc(strip(ch.source)), tuple(ch.adaptors()))
     ELEM_SOURCES.setdefault((e[1], e[2]), ch)
+    if owner is not None:
+        ELEM_SOURCES.setdefault((owner, e[1], e[2]), []).append(ch)
     return e
 
 
@@ -348,12 +351,12 @@ class Scope:
                     is_iter = ("iter::" in nm or "Iterator" in nm or "slice::" in nm or "vec::Vec" in nm)
                     if sc in FOLD_LIKE and is_iter:
                         ch = iter_chain(recv)
-                        elem = elem_of_chain(ch)
+                        elem = elem_of_chain(ch, self.prog.root_of(self.fn).id)
                         elem_arg = 3
                         via = (sc, ch)
                     elif (sc in ELEM_CONSUMERS) and is_iter and "option::Option" not in nm and "result::Result" not in nm:
                         ch = iter_chain(recv)
-                        elem = elem_of_chain(ch)
+                        elem = elem_of_chain(ch, self.prog.root_of(self.fn).id)
                         via = (sc, ch)
                     elif "option::Option" in nm and sc in OPTION_COMBINATORS:
                         from .exprs import mkproj
